@@ -831,17 +831,37 @@ WITNESSES = [
     ('svec', 'int', 'ctor:0;push:0:1;push:0:2;push:0:3;resize:0:1;resize:0:3'),
 ]
 
-RULE = ('histories over {ctor, ctorN, ctorV, copy, assign(other|self), push, pushAt (push_back(x[i])), resize, write, read, destroy} on object '
-        'slots 0/1; every history of the stated length over a reduced alphabet in which each operation is applicable (single object: '
-        'length 5 quick / 5-6 thorough; two objects: length 4 quick / 5 thorough), plus random histories of length 6..200 (including '
-        'inapplicable operations, which must be skipped); state printed after every step so all prefixes are observed. '
-        'non-trivial = history of length >= 3')
+RULE = ('operation histories on object slots 0/1, state printed after every step (so every prefix is observed). '
+        'vector / static_vector<T,4> / small_vector<T,4>: alphabet {ctor, ctorN(n), ctorV(values), copy, assign(other|self), push, '
+        'pushAt = push_back(x[i]), resize, write, read, destroy}; every history of length 5 over a reduced alphabet in which each '
+        'operation is applicable on one object (length 6: vector all, others every 3rd; thorough), every such history of length 4 on '
+        'two objects (quick; length 5 every 3rd/4th in thorough), random histories of length 6..200 including inapplicable operations '
+        '(which must be skipped) and random histories restricted to the theorem domains; element types int and double. '
+        'array<T,3>, tuple<T,T,T>, tuplev2<T,T,T>: {ctor, ctorV, copy, assign, write, read, destroy}, all histories of length 4 (quick) / 5 '
+        'on two objects, int / double / counting non-trivial type for tuples. maybe<T>, either<T,R>: {mk, mkL, mkR, copy, assign, setL, setR, '
+        'writeL, read, destroy}, all histories of length 4 (quick) / 5 on two objects, random up to 200, T in {int, double, counting '
+        'non-trivial type}. A subset is replayed under ASan+UBSan. Inside the theorem domains one request is compared IMPL = ORACLE = MODEL; '
+        'outside, contents and end-of-history ledger are judged separately against the ORACLE and IMPL = MODEL is checked on everything '
+        'including capacity, cells beyond size() and allocator counters. non-trivial = history of length >= 3')
 EXHAUSTIVE = {'quick': False, 'thorough': False}
-ANCHORS = {'NmVerif.Containers.Vec.*': 'utl::vector ctor/copy/operator=/resize/push_back/dtor (utl/vector.hpp:145-244)'}
-ASSUMPTIONS = ['glibc malloc/free behave; the ledger is the counting allocator behind nmtools_malloc/nmtools_free',
-               'malloc(0) returns a non-null block (as glibc does)']
-PARTIAL = []
+ANCHORS = {'NmVerif.Containers.Vec.* (vecImpl)': 'utl::vector ctor/copy/operator=/resize/push_back/dtor (utl/vector.hpp:145-244)',
+           'NmVerif.Containers.SVec.* (svecImpl)': 'utl::static_vector ctor/copy/operator=/resize/push_back (utl/static_vector.hpp:54-98)',
+           'NmVerif.Containers.arrImpl': 'utl::array (utl/array.hpp:23-112), utl::tuple (utl/tuple.hpp), utl::tuplev2 (utl/tuplev2.hpp) through utl::get<I>',
+           'NmVerif.Containers.Small.* (smallImpl)': 'nmtools::small_vector<T,DIM,utl::either,utl::static_vector,utl::vector> (utility/small_vector.hpp:39-140) over utl::either copy/assign/dtor (utl/either.hpp:229-277)',
+           'NmVerif.Containers.Eith.* (estep)': 'utl::either (utl/either.hpp:134-346), utl::maybe trivial and non-trivial specialisations (utl/maybe.hpp:25-200)',
+           'NmVerif.Containers.Ledger': 'nmtools_malloc / nmtools_free (utl/vector.hpp:48-61) redirected to the counting allocator of harness/h_c19.cpp'}
+ASSUMPTIONS = ['glibc malloc/free behave; the ledger is the counting allocator behind nmtools_malloc/nmtools_free (all heap traffic of the utl containers goes through these macros); LeakSanitizer is not used (the runner disables it), the counting allocator plays its role',
+               'malloc(0) returns a non-null block (as glibc does; the counting allocator hands out a 1-byte block)',
+               'indeterminate memory is made observable: fresh and freed blocks are filled with 0xA5 and printed as `u`; freed blocks are quarantined until the end of the history in the non-sanitizer build',
+               'object storage handed to constructors is zero-filled (-fno-lifetime-dse keeps the fill); the model of raw union storage (small_vector, either copy) reflects that; `fill=poison` requests show the effect of non-zero storage',
+               'element type parametric model (alpha = Int in the driver): int, double (multiples of 0.5) and the counting type carry integer payloads',
+               'small_vector is checked with its STL-free parts (utl::either / utl::static_vector / utl::vector) passed explicitly as template arguments, DIM = 4, T = int/double (layouts where the union bytes of a value-initialised static_vector read as a null vector); push_back(x[i]) is not part of the alphabet for small_vector',
+               'utl::tuple / tuplev2 are homogeneous 3-tuples accessed through utl::get<I>; they share the array model']
+PARTIAL = ['no_leak / no_double_free / no_oob / self_assign_noop / no_shared_block (vector ledger theorems) exclude every push_back(x[i]) although only the reallocating ones (full buffer) are defective; vector_refines_list likewise',
+           'staticVector_refines excludes every resize that grows within the capacity although growth of never-used cells is correct (only re-exposed cells are stale)',
+           'small_vector: no ledger theorem (e.g. "histories that stay in static mode never touch the heap") — only the refinement theorem, counterexamples and the correspondence run cover its allocator behaviour',
+           'either/maybe lifetime theorem either_nontrivial_lifetime_ok covers only histories that never store a left value (every other history of a non-trivial type misbehaves: either_never_destroys)']
 MANIFEST = dict(
-    text='Proof: Lean refinement theorems over all operation histories (induction over List Op, any number of objects) for the mirrored container state machines, tied to the real headers by a differential run of histories (exhaustive small scope + random up to length 200) with a counting allocator.',
-    note='model hand-written; fidelity rests on the correspondence run; defects of the unchanged tree are excluded from the theorem domains by explicit predicates and listed as known findings with counterexample theorems',
-    technique='Lean 4 simulation proofs over List Op histories + differential correspondence with allocator ledger')
+    text='Proof: 31 Lean theorems over all operation histories (List Op, any number of object slots, induction done once in a generic simulation / invariant lemma): utl::vector, static_vector, array/tuple, small_vector, maybe and either refine List / bounded List / Sum on explicitly stated decidable history domains; vector additionally refines std::vector up to never-written value-initialised elements on every history; copy independence, self-assignment no-op, no leak / no double free / no out-of-bounds from an explicit allocation ledger; 12 counterexample theorems for defects of the unchanged tree. Tied to the real headers on every run by replaying ~5.7e5 (quick) / ~3.4e6 (thorough) histories against the real containers with a counting allocator and a counting element type, three-way IMPL / MODEL / Python-list ORACLE, plus an ASan+UBSan flavour.',
+    note='Lean kernel + propext/Classical.choice/Quot.sound; model hand-written, fidelity rests on the correspondence run (which also compares capacity, stale cells and malloc/free counters after every step); theorem domains exclude exactly the listed defect classes (13 known findings with witnesses); partial statements are listed in PARTIAL',
+    technique='Lean 4 simulation and invariant proofs over List Op histories + differential history replay with allocator / lifetime ledgers')
